@@ -49,8 +49,8 @@ func NewEnv(name string, conf []byte, f *memdb.Faults) *Env {
 	if f == nil {
 		f = memdb.NoFaults()
 	}
-	e := &Env{Name: name, F: f, Reg: map[string]*memdb.DB{}, Conf: conf}
-	memdb.Register(e.Reg, f)
+	e := &Env{Name: name, F: f, Conf: conf}
+	e.Reg = memdb.Use("/verifmem/"+name+"/", f)
 	e.EnvCfg = &xconf.EnvConf{RootPath: "/verifmem/" + name, DataDir: "data", ChainDir: "blockchain"}
 	e.LCtx = e.newLCtx()
 	l, err := ledger.CreateLedger(e.LCtx, conf)
